@@ -43,6 +43,7 @@ pub enum K {
     NewInt,        // a variable allocated with \newInt
     NewIntArrayElem,
     CharDef,
+    MathCharDef,
     CatCode,
     MathCode,
     EndLineChar,
@@ -54,7 +55,7 @@ pub const MAP_KINDS: &[K] = &[K::MacroCs, K::MacroActive, K::LetChar, K::LetCmd]
 pub const VAR_KINDS: &[K] = &[
     K::Count, K::CountAdvance, K::Dimen, K::Skip, K::Toks, K::MacroPre, K::MacroActivePre, K::LetCmdPre,
     K::CountDef, K::ToksDef, K::CharDef, K::CatCode, K::MathCode, K::EndLineChar, K::Font,
-    K::CountViaAlias, K::ToksViaAlias, K::NewInt, K::NewIntArrayElem,
+    K::CountViaAlias, K::ToksViaAlias, K::NewInt, K::NewIntArrayElem, K::MathCharDef,
 ];
 
 /// A kind instantiated for a slot (1 or 2...) so that two keys of the same kind use different targets.
@@ -74,7 +75,7 @@ impl Bind {
     }
     /// Does texlang accept `\global` in front of this assignment?  (\chardef does not: scope filter.)
     pub fn global_ok(&self) -> bool {
-        !matches!(self.kind, K::CharDef)
+        !matches!(self.kind, K::CharDef | K::MathCharDef)
     }
     /// Depth-0 setup run before the program proper.
     pub fn setup(&self) -> String {
@@ -88,6 +89,7 @@ impl Bind {
             K::CountDef => format!("\\count1{s}0=1{s}0 \\count1{s}1=1{s}1 \\count1{s}2=1{s}2 \\countdef\\{}=1{s}0 ", CS[s]),
             K::ToksDef => format!("\\toks1{s}0={{T0}}\\toks1{s}1={{T1}}\\toks1{s}2={{T2}}\\toksdef\\{}=1{s}0 ", CS[s]),
             K::CharDef => format!("\\chardef\\{}=60 ", CS[s]),
+            K::MathCharDef => format!("\\mathchardef\\{}=70 ", CS[s]),
             K::CountViaAlias => format!("\\countdef\\{}=2{s}0 ", CS[s]),
             K::ToksViaAlias => format!("\\toksdef\\{}=2{s}0 ", CS[s]),
             K::NewInt => format!("\\newInt\\{} ", CS[s]),
@@ -149,6 +151,7 @@ impl Bind {
             K::CountDef => format!("{g}\\countdef\\{}=1{s}{x} ", CS[s]),
             K::ToksDef => format!("{g}\\toksdef\\{}=1{s}{x} ", CS[s]),
             K::CharDef => format!("{g}\\chardef\\{}=6{x} ", CS[s]),
+            K::MathCharDef => format!("{g}\\mathchardef\\{}=7{x} ", CS[s]),
             K::CatCode => format!("{g}\\catcode`\\{}={} ", CC[s], [11, 12, 7][x]),
             K::MathCode => format!("{g}\\mathcode`\\{}={} ", CC[s], [self.mathcode0(), 5, 6][x]),
             K::EndLineChar => format!("{g}\\endlinechar={} ", [13, 42, 43][x]),
@@ -168,7 +171,7 @@ impl Bind {
             K::Toks => format!("\\the\\toks{s}"),
             K::MacroCs | K::MacroPre | K::LetChar | K::LetCmd | K::LetCmdPre => format!("\\{} ", CS[s]),
             K::MacroActive | K::MacroActivePre => format!("{}", ACT[s]),
-            K::CountDef | K::ToksDef | K::CharDef | K::NewInt => format!("\\the\\{} ", CS[s]),
+            K::CountDef | K::ToksDef | K::CharDef | K::MathCharDef | K::NewInt => format!("\\the\\{} ", CS[s]),
             K::CountViaAlias => format!("\\the\\count2{s}0 "),
             K::ToksViaAlias => format!("\\the\\toks2{s}0 "),
             K::NewIntArrayElem => format!("\\the\\{} 3 ", CS[s]),
@@ -239,6 +242,7 @@ impl Bind {
             K::CountDef => format!("1{s}{x}"),
             K::ToksDef => format!("T{x}"),
             K::CharDef => format!("6{x}"),
+            K::MathCharDef => format!("7{x}"),
             K::CatCode => ["11", "12", "7"][x].to_string(),
             K::MathCode => [self.mathcode0(), 5, 6][x].to_string(),
             K::EndLineChar => ["13", "42", "43"][x].to_string(),
